@@ -78,7 +78,22 @@ func genCfgVal(r *Rng, k cfgKey, short bool) cfgVal {
 			v = r.Range(-30, 365)
 		}
 		s := strconv.Itoa(v)
-		return cfgVal{s, s, v}
+		// the batch line carries the number as text: zero-padded (the project's usual style for ids and dates: 012, 0008,
+		// 02000), with an explicit plus sign, or plain
+		ls := s
+		switch r.Intn(5) {
+		case 0:
+			if v >= 0 {
+				ls = strings.Repeat("0", r.Range(1, 3)) + s
+			} else {
+				ls = "-" + strings.Repeat("0", r.Range(1, 2)) + s[1:]
+			}
+		case 1:
+			if v >= 0 && r.Bool(0.5) {
+				ls = "+" + s
+			}
+		}
+		return cfgVal{s, ls, v}
 	case "float":
 		v := float64(r.Range(-9000, 90000)) / 100
 		if r.Bool(0.2) {
@@ -86,8 +101,33 @@ func genCfgVal(r *Rng, k cfgKey, short bool) cfgVal {
 		}
 		s := fmtG(v)
 		ls := s
-		if r.Bool(0.2) {
+		switch r.Intn(10) {
+		case 0, 1:
 			ls = strconv.FormatFloat(v, 'e', -1, 64)
+		case 2: // zero-padded
+			if v >= 0 {
+				ls = strings.Repeat("0", r.Range(1, 2)) + s
+			} else {
+				ls = "-0" + s[1:]
+			}
+		case 3: // trailing zeros / bare decimal point
+			if !strings.ContainsAny(s, ".e") {
+				ls = s + pickS(r, []string{".", ".0", ".000"})
+			} else if !strings.Contains(s, "e") {
+				ls = s + "00"
+			}
+		case 4:
+			if v >= 0 {
+				ls = "+" + s
+			}
+		case 5: // no leading zero before the decimal point
+			if strings.HasPrefix(s, "0.") {
+				ls = s[1:]
+			} else if strings.HasPrefix(s, "-0.") {
+				ls = "-" + s[2:]
+			}
+		case 6:
+			ls = strconv.FormatFloat(v, 'E', -1, 64)
 		}
 		return cfgVal{s, ls, v}
 	case "switch":
